@@ -41,6 +41,7 @@ fn main() {
         Some("run") => run(&args),
         Some("replay") => replay(&args),
         Some("dump") => dump(&args),
+        Some("export") => export(&args),
         _ => { eprintln!("usage: rqh run|replay|dump ..."); std::process::exit(2); }
     }
 }
@@ -343,4 +344,32 @@ fn dump(args: &[String]) {
             println!("{}", s);
         }
     }
+}
+
+
+/// Write the cases of an apply-type generator as files (for checking the harness's own diff renderer against GNU patch):
+/// <dir>/<i>.file (absent when the case starts from a missing file), <i>.patch, <i>.expect (absent = file must not exist), <i>.rev (present when reversed)
+fn export(args: &[String]) {
+    let gen_name = arg(args, "--gen").expect("--gen").to_string();
+    let seed: u64 = arg(args, "--seed").unwrap_or("0").parse().unwrap();
+    let count: u64 = arg(args, "--count").unwrap_or("100").parse().unwrap();
+    let param: u64 = arg(args, "--param").unwrap_or("3").parse().unwrap();
+    let dir = arg(args, "--dir").expect("--dir").to_string();
+    let src = Source::new(&gen_name, seed, "/repo", param);
+    std::fs::create_dir_all(&dir).unwrap();
+    let mut n = 0;
+    let mut index = 0u64;
+    while n < count && index < count * 50 {
+        if let Item::Apply(c) = src.get(index) {
+            if c.steps.len() == 1 {
+                if let Some(f) = &c.file { std::fs::write(format!("{}/{}.file", dir, n), f).unwrap(); }
+                std::fs::write(format!("{}/{}.patch", dir, n), &c.steps[0].patch).unwrap();
+                if c.steps[0].reverse { std::fs::write(format!("{}/{}.rev", dir, n), b"").unwrap(); }
+                if let Some(Some(e)) = &c.expect { std::fs::write(format!("{}/{}.expect", dir, n), e).unwrap(); }
+                n += 1;
+            }
+        }
+        index += 1;
+    }
+    println!("{}", n);
 }
